@@ -430,7 +430,7 @@ PATTERNS = {
     "keyed": [["re", p] for p in ("Keyed<key_a>", ".*key_a.*", "key_a", ".*")] + [["ref", "keyed<KEY_A>", re.I]],
 }
 PATTERNS["eqpair"] = [["re", p] for p in ("x", "a|x", ".*", "b")] + [["ref", "X", re.I]]
-PATTERNS["xid"] = [["re", p] for p in ("a", ".*", "id7")]
+PATTERNS["xid"] = [["re", p] for p in ("a", "b", "c", ".*", "id7", "sid", "a|c")]
 ALPHABET = {"str": ("a", "b", "ab"), "case": ("a", "A", ""), "int": ("a", "b", "c"), "keyed": ("a", "b"), "eqpair": ("a", "b", "x"), "xid": ("a", "b")}
 
 
@@ -555,6 +555,8 @@ def inputs(tier):
     out += [("int", s) for s in gen.plain_specs(3 if quick else 4, alphabet=ALPHABET["int"])]
     out += [("eqpair", s) for s in gen.eqpair_specs(3 if quick else 4)]
     out += [("xid", s) for s in gen.explicit_id_specs(3 if quick else 4)]
+    # different data filed under one explicit data_id: the id is a key, not the name
+    out += [("xid", s) for s in gen.shared_id_specs(3 if quick else 4)]
     out += [("keyed", s) for s in gen.plain_specs(3 if quick else 4, alphabet=ALPHABET["keyed"])]
     return out, n_str
 
